@@ -565,6 +565,146 @@ def main(inp, emit):
     return data
 '''
 
+# a host whose local is a RECORDING object: every special method notes its own name in TOUCHED — only while the agent's
+# trace function is on the stack, so the program itself behaves the same with and without the agent.  props/c01.py reads
+# TOUCHED after the run: every dunder the agent touched must be a side-effect-free protocol (oracle) and must be explained
+# by a row of the extracted host-touch table (correspondence with harness/extract/o8_hosttouch.py).
+PROGRAMS['spy'] = '''
+import sys
+
+TOUCHED = []
+
+
+def _note(name):
+    f = sys._getframe(2)
+    while f is not None:
+        if f.f_code.co_name == 'trace_call' and f.f_code.co_filename.endswith('trigger_handler.py'):
+            TOUCHED.append(name)
+            return
+        f = f.f_back
+
+
+class Spy:
+    _verif_no_wrap = True
+
+    def __init__(self, n):
+        object.__setattr__(self, 'n', n)
+
+    def __getattribute__(self, name):
+        _note('__getattribute__')
+        return object.__getattribute__(self, name)
+
+    def __setattr__(self, name, value):
+        _note('__setattr__')
+        object.__setattr__(self, name, value)
+
+    def __delattr__(self, name):
+        _note('__delattr__')
+
+    def __str__(self):
+        _note('__str__')
+        return 'spy'
+
+    def __repr__(self):
+        _note('__repr__')
+        return 'Spy()'
+
+    def __format__(self, spec):
+        _note('__format__')
+        return 'spy'
+
+    def __len__(self):
+        _note('__len__')
+        return 2
+
+    def __iter__(self):
+        _note('__iter__')
+        return iter((1, 2))
+
+    def __next__(self):
+        _note('__next__')
+        raise StopIteration
+
+    def __getitem__(self, k):
+        _note('__getitem__')
+        return 1
+
+    def __setitem__(self, k, v):
+        _note('__setitem__')
+
+    def __delitem__(self, k):
+        _note('__delitem__')
+
+    def __contains__(self, k):
+        _note('__contains__')
+        return False
+
+    def __eq__(self, other):
+        _note('__eq__')
+        return self is other
+
+    def __hash__(self):
+        _note('__hash__')
+        return 7
+
+    def __bool__(self):
+        _note('__bool__')
+        return True
+
+    def __float__(self):
+        _note('__float__')
+        return 1.5
+
+    def __int__(self):
+        _note('__int__')
+        return 1
+
+    def __index__(self):
+        _note('__index__')
+        return 1
+
+    def __call__(self, *a):
+        _note('__call__')
+        return 0
+
+    def __enter__(self):
+        _note('__enter__')
+        return self
+
+    def __exit__(self, *a):
+        _note('__exit__')
+        return False
+
+    def __add__(self, other):
+        _note('__add__')
+        return 0
+
+    def __radd__(self, other):
+        _note('__radd__')
+        return 0
+
+    def __neg__(self):
+        _note('__neg__')
+        return 0
+
+    def __abs__(self):
+        _note('__abs__')
+        return 0
+
+
+def look(s, k):
+    box = [s, k]                #@A
+    held = {'spy': s}           #@B
+    return len(box) + len(held)
+
+
+def main(inp, emit):
+    s = Spy(inp)
+    r = look(s, inp)
+    emit('looked %d' % r)
+    return r
+'''
+
 # known finding C01/finalisation-delayed-until-gc: the same program WITHOUT gc.collect() — its result depends on
 # objects being finalised by reference counting as soon as the function that held them returns
 PROGRAMS['finalizers_nogc'] = PROGRAMS['finalizers'].replace('        gc.collect()\n', '')
@@ -639,7 +779,8 @@ class Hosts:
 
     def classes(self, name):
         mod = self.modules[name]
-        return [v for v in vars(mod).values() if isinstance(v, type) and v.__module__ == mod.__name__]
+        return [v for v in vars(mod).values() if isinstance(v, type) and v.__module__ == mod.__name__
+                and not vars(v).get('_verif_no_wrap')]         # recording classes are not fault-wrapped
 
     def cleanup(self):
         import shutil
